@@ -1,4 +1,5 @@
 import F3.Spec.GraniteNet
+import F3.Props.C08
 /-!
 # C01 — Agreement
 
@@ -61,6 +62,17 @@ theorem commit_lock (c : Params P V) (hb : faultBound c) {s : Votes P V} (hr : R
     {r r' : Nat} {v x : V} (hv : (c.world s).Q .commit r v) (hne : v ≠ c.bot) (hlt : r < r')
     (hx : (c.world s).Q .commit r' x) (hxne : x ≠ c.bot) : x = v :=
   World.later_commit_eq (inv_reachable c hb hr).rules hv hne hlt hx hxne
+
+/-- The `strong` of the abstract rules is the code's quorum predicate: `World.strong S` asks
+`3·power S ≥ 2·T`, and for every non-negative total that is exactly when the Go function
+`IsStrongQuorum` (regenerated from `gpbft/gpbft.go` on this run) returns true. -/
+theorem strong_is_the_codes_predicate (w : World P V) (S : Finset P) :
+    (S ⊆ w.committee ∧ F3.Gen.isStrongQuorum (w.power S : Int) (w.T : Int) = true) ↔ w.strong S := by
+  unfold World.strong
+  rw [F3.Props.C08.strong_iff _ _ (by omega)]
+  constructor
+  · rintro ⟨h1, h2⟩; exact ⟨h1, by omega⟩
+  · rintro ⟨h1, h2⟩; exact ⟨h1, by omega⟩
 
 /-! ## Non-vacuity: a 4-member committee, member 3 Byzantine and equivocating, and a decision. -/
 section Example
